@@ -1,0 +1,23 @@
+//go:build verif
+
+// Contracts for package payment, read by the verification-condition generator
+// in /verif (govc). Comments only; compiled only with the build tag "verif".
+
+package payment
+
+// The payment rule (C02): money flows only from the actor to the others. It is called by
+// StateMachine.validTransition after the generic checks, i.e. with two valid allocations over the same assets.
+//@ pred payOK(from *channel.State, to *channel.State, actor channel.Index) =
+//@   forall i, j int :: 0 <= i && i < len(from.Balances) && 0 <= j && j < len(from.Balances[i]) ==>
+//@     (j == actor ==> val(from.Balances[i][j]) >= val(to.Balances[i][j])) && (j != actor ==> val(from.Balances[i][j]) <= val(to.Balances[i][j]))
+
+//@ func (*App).ValidTransition
+//@   requires from != nil && to != nil && typeof(to.Data) == typetag("*channel.noData")
+//@   requires validAlloc(from.Allocation) && validAlloc(to.Allocation) && len(from.Balances) == len(to.Balances) && nonNilBalances(from.Balances) && nonNilBalances(to.Balances)
+//@   ensures result == nil <==> payOK(from, to, actor)
+//@   loop 1
+//@     invariant forall k, j int :: 0 <= k && k < $i && 0 <= j && j < len(from.Balances[k]) ==>
+//@       (j == actor ==> val(from.Balances[k][j]) >= val(to.Balances[k][j])) && (j != actor ==> val(from.Balances[k][j]) <= val(to.Balances[k][j]))
+//@   loop 2
+//@     invariant 0 <= i && i < len(from.Balances) && asset == from.Balances[i] && forall l int :: 0 <= l && l < $i ==>
+//@       (l == actor ==> val(asset[l]) >= val(to.Balances[i][l])) && (l != actor ==> val(asset[l]) <= val(to.Balances[i][l]))
